@@ -688,6 +688,191 @@ def _cmp_eval(f, cond, i):
     return {'!=': a != b, '==': a == b, '<': a < b, '>': a > b, '<=': a <= b, '>=': a >= b}[cs['op']]
 
 
+def r11(ctx, prog):
+    ctx.rule('C19.R11', 'A10 residue-class abstraction of the Base64 decoder writing to a caller buffer: the loop is a 4-state machine (position mod 4); walking the four '
+             'case bodies with the output cursor as base+delta gives every store its offset inside the 3-byte group, and the capacity that the dominating '
+             'DecodeLength() test guarantees when the input ends (pads) right after that character is 3 - min(pad decrements, 3 - k): every store offset must lie '
+             'below it, and one cycle must advance the cursor by exactly 3', floor=5)
+    cands = [f for f in prog.funcs.values() if f.file.endswith('util/base64.cpp') and f.short == 'Decode' and f.parent_func is None and len(f.params) == 4 and
+             '*' in f.params[2]['ct'] and 'const' not in f.params[2]['ct']]
+    dl = [f for f in prog.funcs.values() if f.file.endswith('util/base64.cpp') and f.short == 'DecodeLength' and len(f.params) == 2]
+    if len(cands) != 1 or len(dl) != 1:
+        raise AnalysisBroken('Base64 raw Decode/DecodeLength not found (%d/%d)' % (len(cands), len(dl)))
+    f, dl = cands[0], dl[0]
+    # pad decrements of the advertised length: `--len` / `len--` / `len -= 1` on the true edge of a comparison with the pad character
+    pad = None
+    for g in prog.globals.values() if hasattr(prog, 'globals') else ():
+        pass
+    decs = 0
+    for st in dl.stmts:
+        if st and ((st['k'] == 'UnaryOperator' and st.get('op') == '--') or (st['k'] == 'CompoundAssignOperator' and st.get('op') == '-=' and (dl.s(st['ch'][1]) or {}).get('cv') == 1)):
+            p_ = q.pt_or_term(dl, st)
+            gs = [(c, k) for c, k, b in dl.cfg.controlling_branches(p_)]
+            if any(k == 0 and (q.edge_relation(dl, c, k) or (0, '', 0))[1] == '==' and any(dl.stmts[x]['k'] == 'ArraySubscriptExpr' for x in dl.walk(c)) for c, k in gs):
+                decs += 1
+    rets = q.returns(dl)
+    if not decs or not rets:
+        raise AnalysisBroken('DecodeLength: no pad-conditional decrement of the advertised length found')
+    # the capacity test that dominates the loop: DecodeLength(...) > capacity  => return
+    cap = f.params[3]['d']
+    loop = [st for st in f.stmts if st and st['k'] in ('ForStmt', 'WhileStmt') and any(f.stmts[x]['k'] == 'SwitchStmt' for x in f.walk(st['i']))]
+    if len(loop) != 1:
+        raise AnalysisBroken('Base64 Decode: decoding loop with a switch not found')
+    loop = loop[0]
+    sw = [f.stmts[x] for x in f.walk(loop['i']) if f.stmts[x]['k'] == 'SwitchStmt'][0]
+    lp = f.cfg.point_of(sw['cond'])
+    guarded = False
+    for c, k, b in f.cfg.controlling_branches(lp):
+        cs = f.s(f.strip_casts(c))
+        neg = False
+        while cs is not None and cs['k'] == 'UnaryOperator' and cs.get('op') == '!':
+            neg = not neg
+            cs = f.s(f.strip_casts(cs['ch'][0]))
+        if cs is None or cs['k'] != 'BinaryOperator' or cs.get('op') not in ('<', '<=', '>', '>='):
+            continue
+        a, b_ = f.s(f.strip_casts(cs['ch'][0])), f.s(f.strip_casts(cs['ch'][1]))
+        is_dl = lambda x: x is not None and x['k'] in q.CALL_KINDS and x.get('usr') == dl.usr and \
+            [(f.s(f.strip_casts(a_)) or {}).get('d') for a_ in x.get('args', [])] == [f.params[0]['d'], f.params[1]['d']]
+        is_cap = lambda x: x is not None and x['k'] == 'DeclRefExpr' and x.get('d') == cap
+        op = cs['op'] if (k == 0) != neg else {'<': '>=', '<=': '>', '>': '<=', '>=': '<'}[cs['op']]
+        # exactly  DecodeLength(...) <= capacity  (or < capacity, which is stronger) on the edge into the loop
+        if (is_dl(a) and is_cap(b_) and op in ('<=', '<')) or (is_cap(a) and is_dl(b_) and op in ('>=', '>')):
+            guarded = True
+    ctx.ob('C19.R11', '%s|capacity-test' % f.name, guarded, 'the decoding loop is entered only with DecodeLength(input) <= capacity' if guarded else
+           'no test DecodeLength(input) <= capacity dominates the decoding loop', where=f.loc(loop['i']))
+    # the cursor: the local returned at the end
+    fr = [r for r in q.returns(f) if r.get('ch') and (f.s(f.strip_casts(r['ch'][0])) or {}).get('k') == 'DeclRefExpr' and (f.s(f.strip_casts(r['ch'][0])) or {}).get('dk') == 'Var']
+    if not fr:
+        raise AnalysisBroken('Base64 Decode: no returned cursor variable')
+    cur = f.s(f.strip_casts(fr[-1]['ch'][0]))['d']
+    outp = {f.params[2]['d']}
+    for st in f.stmts:
+        if st and st['k'] == 'DeclStmt':
+            for d in st['decls']:
+                if 'init' in d and '*' in d.get('t', '') and any(f.stmts[x]['k'] == 'DeclRefExpr' and f.stmts[x].get('d') in outp for x in f.walk(d['init'])):
+                    outp.add(d['d'])
+    # residues: the switch selector must be position mod 4
+    sel_ok = True
+    ivar = None
+    for x in f.walk(sw['cond']):
+        sx = f.stmts[x]
+        if sx['k'] == 'DeclRefExpr' and sx.get('dk') == 'Var':
+            ivar = sx['d']
+    for r_ in range(8):
+        v = q.eval_expr(f, sw['cond'], lambda sx: r_ if sx['k'] == 'DeclRefExpr' and sx.get('d') == ivar else None)
+        sel_ok = sel_ok and v == r_ % 4
+    if not sel_ok:
+        raise AnalysisBroken('Base64 Decode: the switch does not select on position mod 4')
+    body = f.s(sw['body'])
+    cases = {}
+    curk = None
+    def sub_stmts(cs):
+        """(case values, first statement) of possibly stacked case labels"""
+        vals = [cs.get('v')]
+        sub = f.s(cs['ch'][-1])
+        while sub is not None and sub['k'] == 'CaseStmt':
+            vals.append(sub.get('v'))
+            sub = f.s(sub['ch'][-1])
+        return vals, sub
+    active = []
+    for c in body['ch']:
+        st = f.s(c)
+        if st['k'] == 'CaseStmt':
+            vals, sub = sub_stmts(st)
+            active = active + vals         # fall-through keeps earlier labels active
+            for v in active:
+                cases.setdefault(v, [])
+            if sub is not None and sub['k'] != 'BreakStmt':
+                for v in active:
+                    cases[v].append(sub)
+            elif sub is not None:
+                active = []
+        elif st['k'] == 'BreakStmt':
+            active = []
+        elif st['k'] == 'DefaultStmt':
+            active = []
+        else:
+            for v in active:
+                cases[v].append(st)
+    if sorted(cases) != [0, 1, 2, 3]:
+        raise AnalysisBroken('Base64 Decode: expected case labels 0..3, found %s' % sorted(cases))
+    state = {'d': 0}
+    stores = []
+
+    def idx_off(e):
+        """offset of an index expression relative to the cursor's value at group start; applies ++/-- side effects"""
+        x = f.s(f.strip_casts(e))
+        if x is None:
+            return None
+        if x['k'] == 'ParenExpr':
+            return idx_off(x['ch'][0])
+        if x['k'] == 'DeclRefExpr' and x.get('d') == cur:
+            return state['d']
+        if x['k'] == 'UnaryOperator' and x.get('op') in ('++', '--') and (f.s(f.strip_casts(x['ch'][0])) or {}).get('d') == cur:
+            step = 1 if x['op'] == '++' else -1
+            if x.get('post'):
+                o = state['d']
+                state['d'] += step
+                return o
+            state['d'] += step
+            return state['d']
+        if x['k'] == 'BinaryOperator' and x.get('op') in ('+', '-'):
+            a, b = idx_off(x['ch'][0]), f.s(x['ch'][1]).get('cv')
+            if a is None or b is None:
+                return None
+            return a + b if x['op'] == '+' else a - b
+        return None
+
+    def visit(e, k):
+        st = f.s(e)
+        if st is None:
+            return
+        if st['k'] in ('BinaryOperator', 'CompoundAssignOperator') and st.get('op', '').endswith('=') and st['op'] not in ('==', '!=', '<=', '>='):
+            lhs = f.s(f.strip_casts(st['ch'][0]))
+            if lhs and lhs['k'] == 'ArraySubscriptExpr' and (f.s(f.strip_casts(lhs['ch'][0])) or {}).get('d') in outp:
+                visit(st['ch'][1], k)
+                o = idx_off(lhs['ch'][1])
+                stores.append((k, o, st))
+                return
+            if lhs and lhs['k'] == 'DeclRefExpr' and lhs.get('d') == cur:
+                c_ = f.s(st['ch'][1]).get('cv')
+                if st['op'] == '+=' and c_ is not None:
+                    state['d'] += c_
+                elif st['op'] == '-=' and c_ is not None:
+                    state['d'] -= c_
+                else:
+                    raise AnalysisBroken('Base64 Decode: cursor assigned a non-constant step at %s' % f.loc(st['i']))
+                return
+        if st['k'] == 'UnaryOperator' and st.get('op') in ('++', '--') and (f.s(f.strip_casts(st['ch'][0])) or {}).get('d') == cur:
+            state['d'] += 1 if st['op'] == '++' else -1
+            return
+        if st['k'] in ('IfStmt', 'ForStmt', 'WhileStmt', 'DoStmt', 'SwitchStmt') and any((f.stmts[x].get('d') == cur and f.stmts[x]['k'] == 'DeclRefExpr') or
+                                                                                       (f.stmts[x]['k'] == 'ArraySubscriptExpr') for x in f.walk(st['i'])):
+            raise AnalysisBroken('Base64 Decode: branching inside a case body touches the cursor/output at %s' % f.loc(st['i']))
+        for c in st.get('ch', []):
+            visit(c, k)
+
+    entry = {}
+    for k in range(4):
+        entry[k] = state['d']
+        for st in cases[k]:
+            visit(st['i'], k)
+    cyc = state['d']
+    ctx.ob('C19.R11', '%s|cycle' % f.name, cyc == 3, 'four characters advance the output cursor by exactly 3' if cyc == 3 else
+           'one pass over the four positions advances the output cursor by %d, not 3: the decoder does not produce DecodeLength() bytes' % cyc, where=f.loc(sw['i']))
+    if not stores:
+        raise AnalysisBroken('Base64 Decode: no store through the output pointer found in the case bodies')
+    sample = {0: 'Q===', 1: 'QQ==', 2: 'QUI=', 3: 'QUJD'}
+    for k, o, st in stores:
+        capk = 3 - min(decs, 3 - k)
+        ok = o is not None and 0 <= o < capk
+        ctx.ob('C19.R11', '%s|case%d-store@%s' % (f.name, k, f.loc(st['i']).split(':')[-1]), ok,
+               'store at group offset %s; capacity guaranteed when the input ends after character %d of the group is %d' % (o, k, capk) if ok else
+               'the store at position mod 4 == %d writes group offset %s, but when the input is padded right after this character DecodeLength() — the only thing the '
+               'capacity was compared with — is 3g+%d: with an exactly sufficient buffer (e.g. "%s" into %d byte%s) the byte at index %s is outside the output capacity'
+               % (k, o, capk, sample[k], capk, '' if capk == 1 else 's', o), where=f.loc(st['i']))
+
+
 def run(ctx):
     prog = extract('ALL' if ctx.tier == 'thorough' else SCOPE)
     ctx.guard(r1, ctx, prog)
@@ -700,4 +885,5 @@ def run(ctx):
     ctx.guard(r8, ctx, prog)
     ctx.guard(r9, ctx, prog)
     ctx.guard(r10, ctx, prog)
+    ctx.guard(r11, ctx, prog)
     return prog
